@@ -440,3 +440,4 @@ def run(ctx) -> None:
     kind_guards(ctx)
     mods = [m for m in prog.modules if m.startswith((PARSER, LAZY, 'forml.io.dsl._struct.series'))]
     shared.r_truthy(ctx, tenv, prog.functions(mods), rule='R-TRUTHY', select=lambda fn, e, t: not shared.is_native(t))
+    shared.argname_scope(ctx, ('forml.io.dsl.parser', 'forml.provider.feed.lazy'), floor=2)
